@@ -7,6 +7,7 @@ import (
 	"strings"
 	"time"
 
+	"github.com/ysugimoto/falco/v2/ast"
 	"github.com/ysugimoto/falco/v2/config"
 	"github.com/ysugimoto/falco/v2/lexer"
 	"github.com/ysugimoto/falco/v2/linter"
@@ -190,16 +191,20 @@ type c11Run struct {
 }
 
 func lintWithModules(src string, modules map[string]string) (r c11Run) {
-	defer func() {
-		if e := recover(); e != nil {
-			r.panic = fmt.Sprintf("%v", e)
-		}
-	}()
 	vcl, err := parser.New(lexer.NewFromString(src, lexer.WithFile("main.vcl"))).ParseVCL()
 	if err != nil {
 		r.parse = err.Error()
 		return
 	}
+	return lintTree(vcl, src, modules)
+}
+
+func lintTree(vcl *ast.VCL, src string, modules map[string]string) (r c11Run) {
+	defer func() {
+		if e := recover(); e != nil {
+			r.panic = fmt.Sprintf("%v", e)
+		}
+	}()
 	lt := linter.New(&config.LinterConfig{})
 	lt.Lint(vcl, lcontext.New(lcontext.WithResolver(&mapResolver{main: src, modules: modules})))
 	if lt.FatalError != nil {
@@ -244,6 +249,16 @@ func checkC11(raw json.RawMessage) iso.Result {
 		if fmt.Sprint(again) != fmt.Sprint(first) {
 			col.FailKey(c11Key(c, "nondeterministic"), "two lint runs of the same program differ\n run 1: %d diagnostics fatal=%q\n run %d: %d diagnostics fatal=%q\n%s\n%s", len(first.diags), first.fatal, i+2, len(again.diags), again.fatal, locDiff(first.diags, again.diags), numbered(src))
 			return col.Done()
+		}
+	}
+	// determinism over one parsed tree: linting must not change the tree it is given
+	if vcl, err := parser.New(lexer.NewFromString(src, lexer.WithFile("main.vcl"))).ParseVCL(); err == nil {
+		for i := 0; i < 3; i++ {
+			again := lintTree(vcl, src, c.Modules)
+			if fmt.Sprint(again) != fmt.Sprint(first) {
+				col.FailKey(c11Key(c, "tree-mutated"), "linting the same parsed tree again (run %d, fresh Linter and Context) gives other diagnostics: linting changed its input\n first: %d diagnostics fatal=%q\n again: %d diagnostics fatal=%q\n%s\n%s", i+1, len(first.diags), first.fatal, len(again.diags), again.fatal, locDiff(first.diags, again.diags), numbered(src))
+				return col.Done()
+			}
 		}
 	}
 	// order independence
